@@ -15,9 +15,11 @@ What is abstracted, and how:
   (interning by content) are therefore invisible and omitted.  `identity_map` is `memo`, a
   first-match association list (`HashMap::insert` overwrites).
 * `identity_map[&k]` panics on a missing key: explicit `Err.Panic`.
-* `keepAlive = true` is the **repaired** algorithm: every visited object (and every child object
-  obtained from `.pair`) is pushed on a keep-alive list instead of being dropped, so nothing the walk
-  has looked at can die — and its address cannot be reused — before the walk ends.
+* `keepAlive = true` is **the code as it is** since /repo commit 6e19398 (repair of finding E): every
+  visited object and every child object obtained from `.pair` is pushed on `keep_alive`, so nothing
+  the walk has looked at can die — and its address cannot be reused — before the walk ends.
+  `keepAlive = false` is the code before that commit (references dropped as the walk proceeds); it is
+  kept because the theorem that the keep-alive list is necessary is about it.
 * `log` is a ghost field: every handle the walk has looked at (popped from the stack or returned
   by `.pair`).  The algorithm never reads it; theorems are stated about it.
 -/
